@@ -150,7 +150,7 @@ def constructible(parent: LClass, pos: str, child: LClass) -> bool:
 def prec_grammar(repo, res, backends=("C", "numba"), props_by_backend=None):
     classes = load_classes(repo)
     exprs = concrete_expr_classes(classes)
-    props_by_backend = props_by_backend or {"C": ("C16",), "numba": ("C16", "C18")}
+    props_by_backend = props_by_backend or {"C": ("C16", "C09"), "numba": ("C16", "C18")}
     for be in backends:
         modname, parser = BACKENDS[be]
         table = HandlerTable(repo, modname)
